@@ -303,6 +303,15 @@ class C07(PropBase):
                 k += 1
                 addA(100, gcps, True, regs, mb, mh, [W("4", 100, 16, 8, 4, 12, "1", " ".join(c))])
                 dist["exhaustive_programs"] += 1
+        # junk / bare-name tokens next to every token class (length <= 3, at least one junk token)
+        for n in range(1, 4):
+            for c in itertools.product(ALPHABET + ["junk", "T0", ".raSearchStart"], repeat=n):
+                if "junk" not in c and "T0" not in c and ".raSearchStart" not in c:
+                    continue
+                regs, mb, mh, gcps = envs[k % 2]
+                k += 1
+                addA(100, gcps, True, regs, mb, mh, [W("4", 100, 16, 8, 4, 12, "1", " ".join(c))])
+                dist["exhaustive_programs"] += 1
         if tier == "thorough":
             sub = ["+", "-", "@", "^", "=", "$T0", "$eip", "$esp", ".raSearch", ".undef", "4"]
             for c in itertools.product(sub, repeat=5):
